@@ -20,7 +20,8 @@ import (
 // (gate mode per rule).
 type SchedCase struct {
 	Rules   []models.Rule  `json:"rules"`
-	Builds  [][]int        `json:"builds"` // first group: full build; later groups: incremental builds
+	Builds  [][]int        `json:"builds"` // first group: full build; later groups: incremental builds; -(i+1) = an old version of rule i that a later group replaces
+	OldSal  map[int]int64  `json:"old_sal,omitempty"` // salience of the old versions
 	Pool    bool           `json:"pool,omitempty"`
 	PoolMin int64          `json:"pool_min,omitempty"`
 	PoolMax int64          `json:"pool_max,omitempty"`
@@ -63,8 +64,19 @@ func literal(v interface{}) string {
 }
 
 func rulesText(rs []models.Rule, idx []int) string {
+	return rulesTextOld(rs, idx, nil)
+}
+
+// rulesTextOld also renders old versions (negative indexes): same name, other salience,
+// a body that reports STALE if it ever runs.
+func rulesTextOld(rs []models.Rule, idx []int, oldSal map[int]int64) string {
 	var b strings.Builder
 	for _, i := range idx {
+		if i < 0 {
+			r := rs[-i-1]
+			fmt.Fprintf(&b, "rule %q %q salience %d\nbegin\n  S(@name)\n  STALE(@name)\n  E(@name)\nend\n", r.Name, "old", oldSal[-i-1])
+			continue
+		}
 		b.WriteString(ruleText(rs[i]))
 	}
 	return b.String()
@@ -95,6 +107,7 @@ func (e *schedEnv) apis() map[string]interface{} {
 		"E":    func(n string) { e.log.Add("E", n, 0) },
 		"F":    func(n string) { e.log.Add("F", n, 0); panic("injected failure in " + n) },
 		"gate": func(n string) { e.gates.Enter(n) },
+		"STALE": func(n string) { e.log.Add("STALE", n, 0) },
 	}
 }
 
@@ -115,12 +128,12 @@ func install(c *SchedCase, env *schedEnv) (*schedTarget, error) {
 		return nil, fmt.Errorf("case without builds")
 	}
 	if c.Pool {
-		p, err := engine.NewGenginePool(c.PoolMin, c.PoolMax, c.EM, rulesText(c.Rules, c.Builds[0]), env.apis())
+		p, err := engine.NewGenginePool(c.PoolMin, c.PoolMax, c.EM, rulesTextOld(c.Rules, c.Builds[0], c.OldSal), env.apis())
 		if err != nil {
 			return nil, fmt.Errorf("NewGenginePool: %v", err)
 		}
 		for _, grp := range c.Builds[1:] {
-			if err := p.UpdatePooledRulesIncremental(rulesText(c.Rules, grp)); err != nil {
+			if err := p.UpdatePooledRulesIncremental(rulesTextOld(c.Rules, grp, c.OldSal)); err != nil {
 				return nil, fmt.Errorf("UpdatePooledRulesIncremental: %v", err)
 			}
 		}
@@ -133,11 +146,11 @@ func install(c *SchedCase, env *schedEnv) (*schedTarget, error) {
 	}
 	dc.Add("stag", env.tag)
 	rb := builder.NewRuleBuilder(dc)
-	if err := rb.BuildRuleFromString(rulesText(c.Rules, c.Builds[0])); err != nil {
+	if err := rb.BuildRuleFromString(rulesTextOld(c.Rules, c.Builds[0], c.OldSal)); err != nil {
 		return nil, fmt.Errorf("BuildRuleFromString: %v", err)
 	}
 	for _, grp := range c.Builds[1:] {
-		if err := rb.BuildRuleWithIncremental(rulesText(c.Rules, grp)); err != nil {
+		if err := rb.BuildRuleWithIncremental(rulesTextOld(c.Rules, grp, c.OldSal)); err != nil {
 			return nil, fmt.Errorf("BuildRuleWithIncremental: %v", err)
 		}
 	}
@@ -287,6 +300,32 @@ func uni(t *rapid.T, label string, lo, hi int) int {
 	return lo + bits(t, label, nb)%n
 }
 
+// genBuildsReplacing is genBuilds where, in addition, some rules first exist in an old
+// version (other or same salience) that a later incremental build replaces - in the same
+// batch as additions and other replacements.
+func genBuildsReplacing(t *rapid.T, c *SchedCase) {
+	c.Builds = genBuilds(t, len(c.Rules))
+	if len(c.Builds) < 2 || !pct(t, "replacing", 70) {
+		return
+	}
+	c.OldSal = map[int]int64{}
+	for g := 1; g < len(c.Builds); g++ {
+		for _, i := range c.Builds[g] {
+			if !pct(t, fmt.Sprintf("old%d", i), 45) {
+				continue
+			}
+			// an old version of rule i lives in an earlier group
+			eg := uni(t, fmt.Sprintf("oldgrp%d", i), 0, g-1)
+			c.Builds[eg] = append(c.Builds[eg], -i-1)
+			if pct(t, fmt.Sprintf("oldsame%d", i), 35) {
+				c.OldSal[i] = c.Rules[i].Sal
+			} else {
+				c.OldSal[i] = genSal(t, fmt.Sprintf("oldsal%d", i))
+			}
+		}
+	}
+}
+
 func seqInts(n int) []int {
 	s := make([]int, n)
 	for i := range s {
@@ -370,6 +409,12 @@ func checkSched(x *Ctx, c *SchedCase) (*models.Input, bool) {
 	shape, _, _ := models.EffectiveShape(m, c.EM)
 	for _, v := range models.Validate(*in) {
 		x.Violation(v.Kind+"/"+shape, "%s [call %s]", v.Msg, c.Call)
+	}
+	for _, e := range in.Trace {
+		if e.Kind == "STALE" {
+			x.Violation("stale-version/"+shape, "the old version of rule %q ran although a later incremental build replaced it [call %s]", e.Name, c.Call)
+			break
+		}
 	}
 	if x.Failed() {
 		x.Extra("trace", fmt.Sprint(in.Trace))
